@@ -139,11 +139,20 @@ impl<'t, 'd> Pr<'t, 'd> {
                 self.exprs(G::Sp, values);
             }
             Stmt::CompoundAssign { target, op, value } => {
-                if self.opt(|o| o.plain_compound_targets) {
-                    // the leading gap keeps its liberties, the target itself is written plainly
-                    self.gap(g, "");
+                // darklua hoists the prefix / key of such a target into a temporary, which re-orders tokens
+                let hoists = match target {
+                    Expr::Index { obj, key } => {
+                        !matches!(&**obj, Expr::Name(_))
+                            || !matches!(&**key, Expr::Name(_) | Expr::Nil | Expr::True | Expr::False | Expr::Number { .. } | Expr::Str { .. } | Expr::Vararg)
+                    }
+                    Expr::Field { obj, .. } => !matches!(&**obj, Expr::Name(_)),
+                    _ => false,
+                };
+                if hoists && self.opt(|o| o.plain_compound_targets) {
+                    // no comment in front of the statement (it would be attached to the first token of
+                    // the target) and none inside the target
                     self.quiet += 1;
-                    self.target(G::Tight, target, true);
+                    self.target(g, target, true);
                     self.quiet -= 1;
                 } else {
                     self.target(g, target, true);
